@@ -38,7 +38,34 @@ Links  == {Link(b, "(u)") : b \in LinkBodies} \cup {Link(B1, t) : t \in Tails} \
 Imgs   == {Img(b, "(u)") : b \in {B1, B2, B7, B3, B13}} \cup {Img(B1, t) : t \in {"(/a \"t\")", "(<a b>)", "()", "(u \"x y\")"}}
 Brs    == {Br("\\"), Br("  ")}
 
-FullAtoms == Words \cup EscLex \cup EntLex \cup Codes \cup Autos \cup Emphs \cup Links \cup Imgs \cup Brs
+(* tokens that look like block starts: raw text, escaped spelling, may the raw text start a continuation
+   line without interrupting the paragraph (for THIS parser: no setext headings), class of the first
+   source character *)
+Tok(raw, esc, cont, fc) == [raw |-> raw, esc |-> esc, cont |-> cont, fc |-> fc]
+OrdToks  == {Tok("1.", "1\\.", FALSE, "w"), Tok("01.", "01\\.", FALSE, "w"), Tok("001)", "001\\)", FALSE, "w"),
+             Tok("1)", "1\\)", FALSE, "w"), Tok("2.", "2\\.", TRUE, "w"), Tok("02)", "02\\)", TRUE, "w"),
+             Tok("10.", "10\\.", TRUE, "w"), Tok("000000001.", "000000001\\.", FALSE, "w"),
+             Tok("123456789)", "123456789\\)", TRUE, "w")}
+BulToks  == {Tok("-", "\\-", FALSE, "p"), Tok("+", "\\+", FALSE, "p"), Tok("*", "\\*", FALSE, "p")}
+HashToks == {Tok("#", "\\#", FALSE, "p"), Tok("###", "\\###", FALSE, "p"), Tok("#######", "\\#######", TRUE, "p")}
+MiscToks == {Tok(">", "\\>", FALSE, "p"), Tok("```", "\\`\\`\\`", FALSE, "p"), Tok("~~~", "\\~~~", FALSE, "p"),
+             Tok("---", "\\---", FALSE, "p"), Tok("***", "\\*\\*\\*", FALSE, "p"), Tok("___", "\\_\\_\\_", FALSE, "p"),
+             Tok("- - -", "\\- - -", FALSE, "p"), Tok("=", "=", TRUE, "p"), Tok("===", "===", TRUE, "p"),
+             Tok("--", "\\--", TRUE, "p")}
+AllToks  == OrdToks \cup BulToks \cup HashToks \cup MiscToks
+LineToks == {Tok("1.", "1\\.", FALSE, "w"), Tok("01.", "01\\.", FALSE, "w"), Tok("001)", "001\\)", FALSE, "w"),
+             Tok("2.", "2\\.", TRUE, "w"), Tok("02)", "02\\)", TRUE, "w"), Tok("10.", "10\\.", TRUE, "w")}
+            \cup BulToks \cup {Tok("#", "\\#", FALSE, "p"), Tok(">", "\\>", FALSE, "p"), Tok("~~~", "\\~~~", FALSE, "p"),
+                               Tok("---", "\\---", FALSE, "p"), Tok("- - -", "\\- - -", FALSE, "p"), Tok("===", "===", TRUE, "p")}
+MkAtoms(toks) == {Mk(t, e, tl) : t \in toks, e \in BOOLEAN, tl \in {"", " x"}}
+(* the "line starts" scope: paragraphs of a word and such tokens, soft breaks as written *)
+LineStartAtoms == {W("a"), W("bb")} \cup MkAtoms(LineToks)
+LineJoins  == {"sp", "nl"}
+NoLeaves   == {}
+ParaWheel  == <<"para">>
+LineAtomWheel == <<"w", "mk">>
+
+FullAtoms == MkAtoms(AllToks) \cup Words \cup EscLex \cup EntLex \cup Codes \cup Autos \cup Emphs \cup Links \cup Imgs \cup Brs
 CoreAtoms == {W("a"), W("1"), Lx("\\#"), Lx("\\-"), Lx("\\."), Lx("&#32;"), Lx("\\*"), Lx("&NewLine;"),
               Lx("\\~"), Lx("\\_"), Lx("!"),
               Code("`x y`"), Em("*", B1), Em("_", B3), Strong("*", B5), Strong("_", B1),
@@ -81,8 +108,8 @@ AllJoins  == {"sp", "nl", "none"}
 CoreJoins == {"sp", "none"}
 FullWheel == <<"para", "para", "para", "para", "atx", "leaf", "quote", "list", "list">>
 FlatWheel == <<"para", "atx", "leaf", "quote", "list">>
-FullAtomWheel == <<"w", "w", "lex", "lex", "lex", "code", "em", "strong", "link", "img", "auto", "br">>
-FlatAtomWheel == <<"w", "lex", "code", "em", "strong", "link", "img", "auto", "br">>
+FullAtomWheel == <<"w", "w", "lex", "lex", "mk", "mk", "mk", "code", "em", "strong", "link", "img", "auto", "br">>
+FlatAtomWheel == <<"w", "lex", "mk", "code", "em", "strong", "link", "img", "auto", "br">>
 
 ASSUME MaxBlocks <= MaxNodes /\ "sp" \in JoinSet
 
